@@ -8,7 +8,7 @@ GO=go1.26
 command -v $GO >/dev/null 2>&1 || GO=go
 mkdir -p .scratch evidence replays coq/gen harness/bin
 (cd tools/gen && $GO build -o gen .)
-./tools/gen/gen -repo /repo -targets tools/gen/targets.json -out coq/gen/Extracted.v -fp coq/gen/fingerprints.json
+./tools/gen/gen -repo /repo -targets tools/gen/targets.json -out coq/gen/Extracted.v -out2 coq/gen/ExtractedKeys.v -fp coq/gen/fingerprints.json -warn coq/gen/translator_warnings.txt
 (cd coq && coq_makefile -f _CoqProject -o Makefile >/dev/null && timeout 3000 make -j16 >/dev/null)
 cp /repo/go.sum harness/go.sum.repo 2>/dev/null || true
 (cd harness && mkdir -p bin && for d in cmd/*/; do n=$(basename $d); $GO build -tags verif -o bin/$n ./cmd/$n; done)
